@@ -548,7 +548,7 @@ is compatible (`negotiation_compatible` provides this for every negotiated pair,
 messages — text or binary, compressed or flagged do-not-compress, sent whole with any fragment size or streamed
 frame by frame in any pieces, so that the 2nd and later messages run on the kept or reset context — whose frames
 reach the receiver cut into ANY chunks, is delivered exactly as sent, in order, and nothing else is delivered.
-(No send limit: `maxMessagePayloadSize = 0`, the default; see `lossless_with_send_limit_fails`.)
+(No send limit: `maxMessagePayloadSize = 0`, the default; with a limit: `lossless_with_send_limit`.)
 The two directions of a connection use disjoint state (`Tx` is only the deflater, `Rx` only the inflater),
 so they compose. Byte-level framing/masking of the frames is C01/C02/C15. -/
 theorem lossless {K : Codec} (L : K.Lawful) (a b : Pmce) (hc : dirCompatible a b) (msgs : List Msg)
@@ -604,28 +604,26 @@ theorem incompatible_context_loses_data :
       = some [(true, [1, 2]), (true, [2])] := by
   decide +kernel
 
-/-- **F17 in the model**: with context takeover, a `sendMessage` refused by `maxMessagePayloadSize` *after*
-compression has already advanced the shared deflater; the refused message never reaches the peer, so every later
-message is inflated against the wrong context. Toy codec, limit 10: `[1,2,3]` is delivered, the 8-octet message is
-refused, then `[9]` arrives as `[10]`. So `lossless` does not extend to a positive send limit. -/
-theorem lossless_with_send_limit_fails :
-    let s := sendAll (Tx.init toy ⟨true, false, false, 15, 15, 8⟩) 10
-      [.whole true false none [1, 2, 3], .whole true false none [0, 0, 0, 0, 0, 0, 0, 0], .whole true false none [9]]
-    s.2.2 = [(true, [1, 2, 3]), (true, [9])]
-    ∧ (rxAll (Rx.init toy ⟨false, false, false, 15, 15, 8⟩)
-        (s.2.1.map fun f => ⟨f.fin, f.rsv, f.opcode, [f.payload]⟩)).map (·.2)
-        = some [(true, [1, 2, 3]), (true, [10])] := by
-  decide +kernel
-
-/-- **lossless with a send limit, provable part**: with `maxMessagePayloadSize = maxPayload` (any value) and a
-deflater that resets for every message (no context takeover in this direction), exactly the messages whose send was
-not refused are delivered, intact and in order — a refused send cannot hurt because the next message starts from a
-fresh deflater. With context takeover this is false: `lossless_with_send_limit_fails` (F17). -/
-theorem lossless_with_send_limit_partial {K : Codec} (L : K.Lawful) (a b : Pmce) (hc : dirCompatible a b)
-    (he : a.encNct = true) (maxPayload : Nat) (msgs : List Msg) (hwf : ∀ m ∈ msgs, m.wf) (wire : List WireFrame)
+/-- **lossless with a send limit**: with `maxMessagePayloadSize = maxPayload` (any value), context takeover or
+not, exactly the messages whose send was not refused are delivered, intact and in order. A send refused AFTER
+compression cannot hurt: the sender drops its compression context, and a fresh deflater is in sync with whatever
+the peer's inflater holds (`enc_reset`). (Before the repair 93aa9965 this was false with context takeover — the
+refused message stayed in the shared deflater, finding F17 — and the theorem carried `a.encNct = true`.) -/
+theorem lossless_with_send_limit {K : Codec} (L : K.Lawful) (a b : Pmce) (hc : dirCompatible a b)
+    (maxPayload : Nat) (msgs : List Msg) (hwf : ∀ m ∈ msgs, m.wf) (wire : List WireFrame)
     (hw : wire.map WireFrame.toFrame = (sendAll (Tx.init K a) maxPayload msgs).2.1) :
     ∃ r', rxAll (Rx.init K b) wire = some (r', (sendAll (Tx.init K a) maxPayload msgs).2.2) :=
-  send_recv_all_limit L a b hc he maxPayload msgs _ _ rfl ⟨rfl, rfl, Or.inl rfl⟩ hwf wire hw
+  send_recv_all_limit L a b hc maxPayload msgs _ _ ⟨rfl, rfl, rfl, Or.inl ⟨rfl, Or.inl rfl⟩⟩ hwf wire hw
+
+/-- the F17 scenario now comes out right (toy codec, context takeover, limit 10): `[1,2,3]` is delivered, the
+8-octet message is refused, `[9]` arrives as `[9]` -/
+example :
+    (rxAll (Rx.init toy ⟨false, false, false, 15, 15, 8⟩)
+      (((sendAll (Tx.init toy ⟨true, false, false, 15, 15, 8⟩) 10
+        [.whole true false none [1, 2, 3], .whole true false none [0, 0, 0, 0, 0, 0, 0, 0], .whole true false none [9]]).2.1).map
+          fun f => ⟨f.fin, f.rsv, f.opcode, [f.payload]⟩)).map (·.2)
+      = some [(true, [1, 2, 3]), (true, [9])] := by
+  decide +kernel
 
 /-- the hypotheses are satisfiable together with a refusal actually happening: toy codec, no context takeover,
 limit 10 — the 8-octet message is refused, the other two arrive intact -/
